@@ -21,25 +21,25 @@ theorem restart_curInv (z : Nat → Int) (fs : FS) (c : Cfg) (start : Nat) : Cur
     exact ⟨[], by simp [FS.get_put], by simp [FS.get_put]⟩
 
 /-- `_rotate_files` either leaves everything as it is or ends with a fresh empty current file -/
-theorem rotate_cur (z : Nat → Int) (w : World) (ts : Nat) :
-    rotate z w ts = w ∨
-      ((rotate z w ts).fs.get curName = some [] ∧ (rotate z w ts).sink.fileSize = 0 ∧
-        (rotate z w ts).sink.openTs = ts ∧ stopped w.sink = false ∧
+theorem rotate_cur (P : Params) (z : Nat → Int) (w : World) (ts : Nat) :
+    rotate P z w ts = w ∨
+      ((rotate P z w ts).fs.get curName = some [] ∧ (rotate P z w ts).sink.fileSize = 0 ∧
+        (rotate P z w ts).sink.openTs = ts ∧ stopped w.sink = false ∧
         ∃ cont, w.fs.get curName = some cont ∧ bytes cont ≠ 0) := by
   by_cases hs : stopped w.sink = true
-  · left; exact rotate_noop z w ts (Or.inl hs)
+  · left; exact rotate_noop P z w ts (Or.inl hs)
   · have hs' : stopped w.sink = false := by simpa using hs
     cases hc : w.fs.get curName with
     | none => left; unfold rotate; simp [hs', hc]
     | some cont =>
       by_cases hb : bytes cont = 0
-      · left; exact rotate_noop z w ts (Or.inr ⟨cont, hc, hb⟩)
+      · left; exact rotate_noop P z w ts (Or.inr ⟨cont, hc, hb⟩)
       · right
-        rw [rotate_eq z w ts cont hs' hc hb]
+        rw [rotate_eq P z w ts cont hs' hc hb]
         exact ⟨by simp [FS.get_put], rfl, rfl, hs', cont, rfl, hb⟩
 
-theorem rotate_curInv (z : Nat → Int) (w : World) (ts : Nat) (h : CurInv w) : CurInv (rotate z w ts) := by
-  rcases rotate_cur z w ts with h1 | ⟨h1, h2, _⟩
+theorem rotate_curInv (P : Params) (z : Nat → Int) (w : World) (ts : Nat) (h : CurInv w) : CurInv (rotate P z w ts) := by
+  rcases rotate_cur P z w ts with h1 | ⟨h1, h2, _⟩
   · rw [h1]; exact h
   · exact ⟨[], h1, by rw [h2]; rfl⟩
 
@@ -51,7 +51,7 @@ theorem prepare_curInv (P : Params) (z : Nat → Int) (w : World) (size ts : Nat
     CurInv (prepare P z w size ts) := by
   rcases prepare_cases P z w size ts with hs | hs
   · exact curInv_of_same hs h
-  · exact curInv_of_same hs (rotate_curInv z w ts h)
+  · exact curInv_of_same hs (rotate_curInv P z w ts h)
 
 theorem appendCur_curInv (w : World) (st : Stmt) (h : CurInv w) : CurInv (appendCur w st) := by
   obtain ⟨cont, h1, h2⟩ := h
@@ -90,7 +90,7 @@ theorem prepare_idle (P : Params) (z : Nat → Int) (w : World) (size ts : Nat) 
   dsimp only
   have h1 : (if w.sink.cfg.freq ≠ Freq.disabled then
       (if ts ≥ w.sink.nextRot then
-        ({ rotate z w ts with sink := { (rotate z w ts).sink with
+        ({ rotate P z w ts with sink := { (rotate P z w ts).sink with
             nextRot := advance P.advancesFromSchedule (period w.sink.cfg) w.sink.nextRot ts } }, true)
        else (w, false))
      else (w, false)) = (w, false) := by
@@ -107,7 +107,7 @@ theorem prepare_idle (P : Params) (z : Nat → Int) (w : World) (size ts : Nat) 
 
 /-- `prepare` when a trigger fires: `_rotate_files` is called (and `_next_rotation_time` possibly advanced) -/
 theorem prepare_due (P : Params) (z : Nat → Int) (w : World) (size ts : Nat) (h : timeDue w ts ∨ sizeDue w size ts) :
-    SameFiles (prepare P z w size ts) (rotate z w ts) := by
+    SameFiles (prepare P z w size ts) (rotate P z w ts) := by
   unfold prepare timeRotation sizeRotation
   dsimp only
   rcases h with ht | ⟨hnt, hl, hgt⟩
@@ -130,22 +130,38 @@ theorem write_cur (P : Params) (z : Nat → Int) (w : World) (st : Stmt) (ts : N
   exact ⟨pre, by simp [write, appendCur, FS.get_put, h1], h1⟩
 
 /-- number of tracked files after `_rotate_files`: never above `max(before, max_backup_files + 1)` -/
-theorem rotate_count (z : Nat → Int) (w : World) (ts : Nat) :
-    (rotate z w ts).sink.created.length ≤ max w.sink.created.length (w.sink.cfg.maxBackup + 1) := by
-  rcases rotate_cur z w ts with h1 | ⟨_, _, _, hs, cont, hc, hb⟩
+theorem rotate_count (P : Params) (z : Nat → Int) (w : World) (ts : Nat) :
+    (rotate P z w ts).sink.created.length ≤ max w.sink.created.length (w.sink.cfg.maxBackup + 1) := by
+  rcases rotate_cur P z w ts with h1 | ⟨_, _, _, hs, cont, hc, hb⟩
   · rw [h1]; omega
-  · rw [rotate_eq z w ts cont hs hc hb]
-    simp only [List.length_append, List.length_cons, List.length_nil, List.length_map]
-    split
-    · simp only [List.length_tail, List.length_map]; omega
-    · simp only [List.length_map]; omega
+  · rw [rotate_eq P z w ts cont hs hc hb]
+    simp only [List.length_append, List.length_cons, List.length_nil, List.length_map, List.length_drop, excess]
+    split <;> (try split) <;> omega
+
+/-- with the repaired deletion loop (`while`), a rotation that takes place leaves at most `max_backup_files` rotated
+    files — however many the start had recovered -/
+theorem rotate_count_all (P : Params) (z : Nat → Int) (w : World) (ts : Nat) (hP : P.deletesAllExcess = true)
+    (hr : rotates w) : (rotate P z w ts).sink.created.length ≤ w.sink.cfg.maxBackup + 1 := by
+  obtain ⟨hs, cont, hc, hb⟩ := hr
+  rw [rotate_eq P z w ts cont hs hc hb]
+  simp only [List.length_append, List.length_cons, List.length_nil, List.length_map, List.length_drop, excess, hP,
+    ↓reduceIte]
+  split <;> omega
 
 theorem write_count (P : Params) (z : Nat → Int) (w : World) (st : Stmt) (ts : Nat) :
     (write P z w st ts).sink.created.length ≤ max w.sink.created.length (w.sink.cfg.maxBackup + 1) := by
   show (prepare P z w st.size ts).sink.created.length ≤ _
   rcases prepare_cases P z w st.size ts with hs | hs
   · rw [hs.created]; omega
-  · rw [hs.created]; exact rotate_count z w ts
+  · rw [hs.created]; exact rotate_count P z w ts
+
+/-- … and so does the write that triggered it -/
+theorem write_count_all (P : Params) (z : Nat → Int) (w : World) (st : Stmt) (ts : Nat) (hP : P.deletesAllExcess = true)
+    (hdue : timeDue w ts ∨ sizeDue w st.size ts) (hr : rotates w) :
+    (write P z w st ts).sink.created.length ≤ w.sink.cfg.maxBackup + 1 := by
+  show (prepare P z w st.size ts).sink.created.length ≤ _
+  rw [(prepare_due P z w st.size ts hdue).created]
+  exact rotate_count_all P z w ts hP hr
 
 /-! ### no rename lands on an existing file (Index scheme) -/
 
